@@ -6,4 +6,13 @@ UNITS = [u for u in async_node.UNITS + async_misc.UNITS + compiled.UNITS + graph
 
 
 def check(tier, seed):
-    return check_property("C06", UNITS, tier, seed)
+    from pyvc import bounded
+    lines, ev, err = bounded.async_episodes("C06", tier, seed)
+    lines2, ev2, err2 = bounded.compiled_api("C06", tier, seed)
+    lines, err = lines + lines2, err or err2
+    extra = {}
+    extra["bounded"] = list(extra.get("bounded", [])) + [ev, ev2]
+    for l in ev.get("known_finding_lines", []) + ev2.get("known_finding_lines", []):
+        print(l)
+    code = check_property("C06", UNITS, tier, seed, extra=extra)
+    return bounded.finish_with_bounded("C06", code, lines, err)
